@@ -1,3 +1,4 @@
+import ZCV.Lemmas.Misc
 import ZCV.Model.Matcher
 namespace ZCV.Props.C08
 open ZCV ZCV.Cfg
@@ -6,5 +7,24 @@ open ZCV ZCV.Cfg
 theorem C08_synErr_position (url : Option Str) (line : Nat) (tag : String) :
     ∃ e, synErr url line tag = .cfg e ∧ e.line = some (line : Int) ∧ e.url = url ∧ e.kind = .syntax :=
   ⟨_, rfl, rfl, rfl, rfl⟩
+
+
+/-- a configuration error raised while handling a key line always leaves with a line number … -/
+theorem C08_key_line_error_has_line {σ} (env : Env) (c : PCtx σ) (url : Option Str) (line : Nat) (key raw : Str) (st : PS σ)
+    (e : Err) (h : keyValue env c url line key raw st = .error (.cfg e)) : e.line ≠ none :=
+  keyValue_error_has_line env c url line key raw st e h
+
+/-- … namely this line of this resource whenever the error itself brought no position (unknown key, repeated key,
+    undefined or malformed substitution) -/
+theorem C08_key_line_error_position {σ} (env : Env) (c : PCtx σ) (url : Option Str) (line : Nat) (key raw : Str) (st : PS σ)
+    (hc : ∀ v e', c.value st.ctx key v { line := line, url := url } = .error (.cfg e') → e'.line = none ∧ e'.url = none)
+    (e : Err) (h : keyValue env c url line key raw st = .error (.cfg e)) :
+    e.line = some (line : Int) ∧ e.url = url :=
+  keyValue_error_position env c url line key raw st hc e h
+
+/-- the closing line (either spelling of the section) always gives the error a line number -/
+theorem C08_close_error_has_line {σ} (url : Option Str) (line : Nat) (r : M σ) (e : Err)
+    (h : closeFixup url line r = .error (.cfg e)) : e.line ≠ none :=
+  closeFixup_error_has_line url line r e h
 
 end ZCV.Props.C08
